@@ -218,6 +218,10 @@ pub struct Doc {
     pub col_pad: usize,
     /// this many blank lines at the top (very large line numbers)
     pub line_pad: usize,
+    /// white space / comments around the dots of the package name, the imports and the forward
+    /// declarations (the lexer skips trivia between any two tokens): 0 none, 1 `a. b`, 2 `a .b`,
+    /// 3 `a./*x*/b`, 4 a line break after the dot
+    pub dot_trivia: u8,
 }
 
 fn render_doc_comment(doc: &Option<String>, out: &mut String, sep: &str) {
@@ -226,6 +230,16 @@ fn render_doc_comment(doc: &Option<String>, out: &mut String, sep: &str) {
         out.push_str(d);
         out.push_str(" */");
         out.push_str(sep);
+    }
+}
+
+fn dotted(name: &str, trivia: u8) -> String {
+    match trivia {
+        1 => name.replace('.', ". "),
+        2 => name.replace('.', " ."),
+        3 => name.replace('.', "./*x*/"),
+        4 => name.replace('.', ".\n        "),
+        _ => name.to_owned(),
     }
 }
 
@@ -246,7 +260,7 @@ impl Doc {
             s.push('\n');
         }
         s.push_str("package ");
-        s.push_str(&self.pkg);
+        s.push_str(&dotted(&self.pkg, self.dot_trivia));
         s.push(';');
         if self.col_pad > 0 {
             s.push_str(" /*");
@@ -258,13 +272,13 @@ impl Doc {
         s.push_str(hsep);
         for i in &self.imports {
             s.push_str("import ");
-            s.push_str(i);
+            s.push_str(&dotted(i, self.dot_trivia));
             s.push(';');
             s.push_str(hsep);
         }
         for f in &self.fwd {
             s.push_str("parcelable ");
-            s.push_str(f);
+            s.push_str(&dotted(f, self.dot_trivia));
             s.push(';');
             s.push_str(hsep);
         }
@@ -433,6 +447,7 @@ impl Doc {
         push(&|d| d.banner = None);
         push(&|d| d.crlf = false);
         push(&|d| d.tabs = false);
+        push(&|d| d.dot_trivia = 0);
         push(&|d| d.col_pad = 0);
         push(&|d| d.line_pad = 0);
         push(&|d| d.col_pad /= 2);
@@ -1278,6 +1293,7 @@ pub fn gen_doc(
         tabs: rng.pct(k.p_block_comments / 2),
         // sizes around 2^8, 2^12 and 2^16: packed positions, narrow integer types
         col_pad: if rng.pct(k.p_heavy / 3 + 1) { *rng.pick(&[250usize, 260, 4090, 4200, 4200, 65530, 66000]) } else { 0 },
+        dot_trivia: if rng.pct(k.p_block_comments / 2 + 2) { rng.range(1, 4) as u8 } else { 0 },
         line_pad: if rng.pct(k.p_heavy / 6 + 1) { *rng.pick(&[250usize, 260, 4090, 4200, 66000]) } else { 0 },
     }
 }
